@@ -74,14 +74,24 @@ type srw struct {
 	h      http.Header
 	status int
 	body   []byte
+	// reentrant: a control call made by this very request from inside Header() / WriteHeader() (once)
+	onHeader, onWriteHeader func()
 }
 
 func (w *srw) Header() http.Header {
 	sched.Point(sched.Op{Kind: sched.OpEnv, Name: "w.Header()"})
+	if f := w.onHeader; f != nil {
+		w.onHeader = nil
+		f()
+	}
 	return w.h
 }
 func (w *srw) WriteHeader(code int) {
 	sched.Point(sched.Op{Kind: sched.OpEnv, Name: "w.WriteHeader()"})
+	if f := w.onWriteHeader; f != nil {
+		w.onWriteHeader = nil
+		f()
+	}
 	if w.status == 0 {
 		w.status = code
 	}
@@ -92,11 +102,18 @@ func (w *srw) Write(p []byte) (int, error) {
 	return len(p), nil
 }
 
-type innerHandler struct{ calls int }
+type innerHandler struct {
+	calls   int
+	onEntry func() // reentrant control call made by the wrapped handler itself (e.g. an admin endpoint behind the middleware)
+}
 
 func (h *innerHandler) ServeHTTP(w http.ResponseWriter, r *http.Request) {
 	sched.Point(sched.Op{Kind: sched.OpEnv, Name: "wrapped handler entry"})
 	h.calls++
+	if f := h.onEntry; f != nil {
+		h.onEntry = nil
+		f()
+	}
 	// an ordinary handler may edit, in place, the header values it can reach (e.g. tack a name onto a list): whatever
 	// it touches belongs to this request only, so no other response may ever show the mark
 	for _, hd := range []http.Header{w.Header(), r.Header} {
@@ -121,7 +138,10 @@ func renderConfig(c *cors.Config) string {
 func doOp(m *cors.Middleware, o opSpec) string {
 	switch o.Kind {
 	case "request":
-		rs := requests[o.Arg]
+		// "name" or "name@where:kind:arg": the request itself performs the control operation kind(arg) from inside
+		// w.Header() (where=header), w.WriteHeader() (writeheader) or the wrapped handler (handler)
+		name, nested, _ := strings.Cut(o.Arg, "@")
+		rs := requests[name]
 		hdr := make(http.Header, len(rs.hdr))
 		for k, v := range rs.hdr {
 			hdr[k] = append([]string(nil), v...)
@@ -129,6 +149,19 @@ func doOp(m *cors.Middleware, o opSpec) string {
 		req := &http.Request{Method: rs.method, Header: hdr, URL: &url.URL{Path: "/"}}
 		inner := &innerHandler{}
 		w := &srw{h: http.Header{}}
+		nestedResult := ""
+		if nested != "" {
+			f := strings.SplitN(nested, ":", 3)
+			do := func() { nestedResult = " nested:" + doOp(m, opSpec{f[1], f[2]}) }
+			switch f[0] {
+			case "header":
+				w.onHeader = do
+			case "writeheader":
+				w.onWriteHeader = do
+			case "handler":
+				inner.onEntry = do
+			}
+		}
 		m.Wrap(inner).ServeHTTP(w, req)
 		keys := make([]string, 0, len(w.h))
 		for k := range w.h {
@@ -136,7 +169,7 @@ func doOp(m *cors.Middleware, o opSpec) string {
 		}
 		sort.Strings(keys)
 		var b strings.Builder
-		fmt.Fprintf(&b, "status=%d handler=%d", w.status, inner.calls)
+		fmt.Fprintf(&b, "status=%d handler=%d%s", w.status, inner.calls, nestedResult)
 		for _, k := range keys {
 			fmt.Fprintf(&b, " %s=%q", k, w.h[k])
 		}
@@ -510,6 +543,20 @@ func scenarios(thorough bool) []scenario {
 	reqs := []string{"preflight-fail-method", "preflight-ok-A", "actual-A", "actual-B", "noncors-options", "preflight-ok-B"}
 	ctl := []opSpec{{"reconfigure", "B"}, {"reconfigure", "nil"}, {"reconfigure", "A"}, {"reconfigure", "invalid"}, {"setdebug", "true"}, {"setdebug", "false"}, {"config", ""}}
 	var out []scenario
+	// re-entrant control calls: the request itself reconfigures the middleware (or reads its configuration, or toggles
+	// debug mode) from inside the ResponseWriter or the wrapped handler, next to a thread that reads the configuration
+	for _, in := range inits {
+		for _, r := range []string{"preflight-fail-method", "actual-A", "noncors-options"} {
+			for _, where := range []string{"header", "writeheader", "handler"} {
+				for _, c := range ctl {
+					op := opSpec{"request", r + "@" + where + ":" + c.Kind + ":" + c.Arg}
+					// (the other thread only reads: a request with a nested control call has two linearization points, and
+					// the replay oracle treats it as one operation, which is exact only if nobody else writes in between)
+					out = append(out, scenario{in, [][]opSpec{{op}, {{"config", ""}}}, -1})
+				}
+			}
+		}
+	}
 	// a reconfiguration that extends the current origin list, against requests from an old and from an added origin
 	for _, in := range inits {
 		for _, r := range []string{"actual-A", "actual-Aplus", "preflight-ok-A"} {
